@@ -8,6 +8,7 @@ import (
 	"sync"
 
 	"verif/internal/cat"
+	"verif/internal/kf"
 	"verif/internal/vals"
 )
 
@@ -20,7 +21,8 @@ import (
 // bind in a scope (loop variables, include props, slot props): on a correct engine they print
 // nothing for those names.
 //
-// v-for over a map is used nowhere (documented: iteration order for maps is unspecified).
+// v-for over maps: see x-map-loops (which order the keys are visited in is unspecified and not
+// asserted; that identical inputs give identical bytes is).
 
 const end = `<i data-m="end">END</i>`
 
@@ -83,6 +85,47 @@ func numTwin(name, canary, kind string) cat.Program {
 	return cat.Program{Name: name, Canary: canary, Feat: []string{"retype-twin", "expr", "arithmetic"},
 		Files: map[string]string{"page.vuego": page},
 		Data:  map[string]vals.V{"who": s(canary), "n": num("2"), "k": num("3"), "l": anys(num("1"), num("2"), num("3"))}}
+}
+
+// ---- loops over maps
+
+// fMapOrder: Stack.ForEach walks a map in Go's random iteration order, so a v-for over a map
+// with two or more keys renders its instances in an order that changes from render to render.
+// While the finding is open, the loop sources of the registered programs are cut down to ONE
+// key (the first in sorted order); every cut is counted.
+const fMapOrder = "C10-map-iteration-order-random"
+
+var (
+	mapOrderOpen = kf.Load().Open(fMapOrder)
+	mapsCut      int
+)
+
+// loopMap describes a map that a program loops over (kind: map, mapss, mapint, c10:mapsi).
+func loopMap(kind string, entries map[string]vals.V) vals.V {
+	if mapOrderOpen && len(entries) > 1 {
+		keys := make([]string, 0, len(entries))
+		for k := range entries {
+			keys = append(keys, k)
+		}
+		sort.Strings(keys)
+		entries = map[string]vals.V{keys[0]: entries[keys[0]]}
+		mapsCut++
+	}
+	return vals.V{K: kind, M: entries}
+}
+
+// yamlMap writes a front-matter mapping "name:\n  k: v\n ..." (pairs in the order given; cut
+// down to the first pair while the finding is open).
+func yamlMap(name string, kv ...string) string {
+	if mapOrderOpen && len(kv) > 2 {
+		kv = kv[:2]
+		mapsCut++
+	}
+	out := name + ":\n"
+	for i := 0; i+1 < len(kv); i += 2 {
+		out += "  " + kv[i] + ": " + kv[i+1] + "\n"
+	}
+	return out
 }
 
 func local() []cat.Program {
@@ -355,6 +398,60 @@ func local() []cat.Program {
 				"components/xpn-sep.vuego": "\n  <b>{{ kw }}</b><!-- sep --> \t<i>{{ name }}</i>  \n\n<u>{{ kw }}</u>\n",
 			},
 			Data: map[string]vals.V{"who": s("xpnWHO"), "k1": s("func"), "k2": s("var"), "rows": strs("if", "for")}},
+
+		// overlay storage: data/ and components/ exist in ONE layer only and hold files that
+		// collide - four YAML files defining the same keys, two component files mapping to the same
+		// shorthand tag: which one wins must not vary from engine to engine
+		{Name: "x-overlay-data", Opts: []string{"onelayer"}, Canary: "xodWHO", Feat: []string{"many-engines", "config-data", "overlay"},
+			Files: map[string]string{
+				"page.vuego":    `<p>{{ site.name }} | {{ brand }} | {{ only_a }} | {{ only_z }} | {{ theme }} | {{ who }}</p><i v-for="mi in menu">{{ mi }}</i>` + end,
+				"theme.yml":     "theme: dark\nbrand: from-theme\n",
+				"data/a.yml":    "site:\n  name: from-a\nbrand: brand-a\nonly_a: A\nmenu:\n  - a1\n  - a2\n",
+				"data/m.yaml":   "site:\n  name: from-m\nbrand: brand-m\nmenu:\n  - m1\n",
+				"data/site.yml": "site:\n  name: from-site\nbrand: brand-site\n",
+				"data/z.yml":    "site:\n  name: from-z\nbrand: brand-z\nonly_z: Z\nmenu:\n  - z1\n  - z2\n  - z3\n",
+				"data/b.yml":    "brand: brand-b\nsite:\n  name: from-b\n",
+				"data/k.yml":    "brand: brand-k\nmenu:\n  - k1\n",
+			},
+			Data: map[string]vals.V{"who": s("xodWHO")}},
+		{Name: "x-overlay-comps", Opts: []string{"onelayer", "components"}, Canary: "xocWHO", Feat: []string{"many-engines", "shorthand", "overlay"},
+			Files: map[string]string{
+				"page.vuego":                     `<div><xob-badge :label="who"></xob-badge><xob-card-item label="two"></xob-card-item><xob-badge label="again"></xob-badge></div>` + end,
+				"components/XobBadge.vuego":      `<span class="flat">flat {{ label }}</span>`,
+				"components/xob/Badge.vuego":     `<span class="nested">nested {{ label }}</span>`,
+				"components/xobBadge.vuego":      `<span class="lower">lower {{ label }}</span>`,
+				"components/XobCardItem.vuego":   `<b>card-item {{ label }}</b>`,
+				"components/xob/CardItem.vuego":  `<b>xob/card-item {{ label }}</b>`,
+				"components/xob/card/Item.vuego": `<b>xob/card/item {{ label }}</b>`,
+			},
+			Data: map[string]vals.V{"who": s("xocWHO")}},
+
+		// v-for over MAPS with 2..6 keys: map[string]any, map[string]string, map[string]int,
+		// map[int]string, a map of maps, a map passed on as a prop, a map from front-matter; plain
+		// and (i, v) forms (i is the position). The same inputs must give the same bytes.
+		{Name: "x-map-loops", Canary: "xmlWHO", Feat: []string{"map-loop", "many-engines", "v-for", "include"},
+			Files: map[string]string{
+				"page.vuego": `<ul><li v-for="v in m" :title="v">{{ v }}</li></ul><ol><li v-for="(i, v) in ms">{{ i }}={{ v }}</li></ol>` +
+					`<p v-for="x in mi">{{ x }}</p><p v-for="(i, t) in im" :data-i="i">{{ t }}</p>` +
+					`<div v-for="inner in nested"><b v-for="x in inner">{{ x }}</b></div><em v-for="v in two">{{ v }}</em>` +
+					`<template include="components/xml-list.vuego" :items="m" :labels="ms"></template><span v-for="v in m" v-if="v">{{ v }}</span>` + end,
+				"components/xml-list.vuego": "---\n" + yamlMap("fm", "ka", "fa", "kb", "fb", "kc", "fc") + "---\n" + `<dl><dt v-for="(i, it) in items">{{ i }}:{{ it }}</dt><dd v-for="l in labels">{{ l }}</dd><dd v-for="f in fm">{{ f }}</dd></dl>`,
+			},
+			Data: map[string]vals.V{"who": s("xmlWHO"),
+				"m":   loopMap("map", map[string]vals.V{"k1": s("v1-xmlWHO"), "k2": n(2), "k3": s("v3"), "k4": b(true), "k5": s("v5"), "k6": s("v6")}),
+				"ms":  loopMap("mapss", map[string]vals.V{"a": s("A"), "b": s("B"), "c": s("C"), "d": s("D")}),
+				"mi":  loopMap(kMapSI, map[string]vals.V{"one": n(1), "two": n(2), "three": n(3)}),
+				"im":  loopMap("mapint", map[string]vals.V{"10": s("ten"), "2": s("two"), "33": s("thirty-three"), "4": s("four"), "5": s("five")}),
+				"two": loopMap("map", map[string]vals.V{"x": s("X"), "y": s("Y")}),
+				"nested": loopMap("map", map[string]vals.V{
+					"n1": loopMap("map", map[string]vals.V{"p": s("n1p"), "q": s("n1q")}),
+					"n2": loopMap("mapss", map[string]vals.V{"r": s("n2r"), "s": s("n2s"), "t": s("n2t")})})}},
+		{Name: "x-map-loops-layout", FileOnly: true, Canary: "xmyWHO", Feat: []string{"map-loop", "many-engines", "layout", "front-matter"},
+			Files: map[string]string{
+				"page.vuego":         "---\nlayout: maps\n" + yamlMap("nav", "home", "/", "docs", "/docs", "blog", "/blog") + "---\n" + `<article><a v-for="href in nav" :href="href">{{ href }}</a><i v-for="v in m">{{ v }}</i></article>`,
+				"layouts/maps.vuego": "---\n" + yamlMap("foot", "l", "left", "r", "right") + "---\n" + `<main><nav><a v-for="(i, href) in nav" :href="href">{{ i }}</a></nav><div v-html="content"></div><footer><b v-for="f in foot">{{ f }}</b><u v-for="v in m">{{ v }}</u></footer></main>` + end,
+			},
+			Data: map[string]vals.V{"who": s("xmyWHO"), "m": loopMap("mapss", map[string]vals.V{"a": s("A"), "b": s("B"), "c": s("C")})}},
 
 		// retype twins: DIFFERENT files with the SAME template text (so the same expression texts)
 		// whose data gives the same names differently typed values; on the shared engine they meet
